@@ -87,9 +87,13 @@ func TimeStampToCdr(t *time.Time) cdrType.TimeStamp {
 		ts[6] = byte('+')
 	} else {
 		ts[6] = byte('-')
+		tz = -tz
 	}
-	ts[7] = (byte(tz/3600/10) << 4) | (byte(tz / 3600 % 10))
-	ts[8] = (byte(tz%3600/10) << 4) | (byte(tz % 3600 % 10))
+	// hh and mm of the (absolute) deviation from UTC
+	tzHour := tz / 3600
+	tzMinute := tz % 3600 / 60
+	ts[7] = (byte(tzHour/10) << 4) | (byte(tzHour % 10))
+	ts[8] = (byte(tzMinute/10) << 4) | (byte(tzMinute % 10))
 	cdrTimeStamp := cdrType.TimeStamp{
 		Value: ts,
 	}
